@@ -74,7 +74,7 @@ DT_KERNELS["TzLoadKernels"] = dict(imports=["DateutilVerif.Model.LoadPy", "Dateu
 # "RDPy" kernels (harness/translate_rd.py): the methods of relativedelta, several Lean functions per method
 import translate_rd as TR
 RD_KERNELS = {
-    "RDOps": dict(imports=["DateutilVerif.Model.RDPy", "DateutilVerif.Generated.RDKernels"], file="relativedelta.py",
+    "RDOps": dict(imports=["DateutilVerif.Model.RDPy", "DateutilVerif.Generated.RDKernels", "DateutilVerif.Generated.WdOps"], file="relativedelta.py",
                   specs=TR.RD_SPECS),
 }
 
@@ -165,6 +165,33 @@ def gen_parser_ops(repo, out, report):
             report["kernels"][mod] = {"ok": True, "fingerprints": fps, "changed": changed}
         except (T.Untranslatable, SyntaxError, OSError) as ex:
             report["kernels"][mod] = {"ok": False, "error": "%s: %s" % (type(ex).__name__, ex)}
+def gen_wd_kernels(repo, out, report):
+    """dateutil._common.weekday (+ rrule.weekday.__init__) -> Generated/WdOps.lean (harness/translate_wd.py; C16 / C13)"""
+    import translate_wd as TW
+    src = os.path.join(repo, "src", "dateutil")
+    path = os.path.join(out, "WdOps.lean")
+    try:
+        text, fps = TW.translate_module(src)
+        body = "/- GENERATED by harness/gen.py (translate_wd.py) from /repo's working tree — do not edit. -/\n"
+        body += "import DateutilVerif.Model.WdPy\n\nset_option linter.unusedVariables false\n\nnamespace Gen\n\n" + text + "\nend Gen\n"
+        changed = write_if_changed(path, body)
+        report["kernels"]["WdOps"] = {"ok": True, "fingerprints": fps, "changed": changed}
+    except (T.Untranslatable, SyntaxError, OSError) as ex:
+        report["kernels"]["WdOps"] = {"ok": False, "error": "%s: %s" % (type(ex).__name__, ex)}
+
+def gen_gettz(repo, out, report):
+    """tz.gettz's name-resolution cascade GettzFunc.nocache -> Generated/GettzNocache.lean (harness/translate_gettz.py; C18)"""
+    import translate_gettz as TG
+    src = os.path.join(repo, "src", "dateutil")
+    path = os.path.join(out, "GettzNocache.lean")
+    try:
+        text, fps = TG.translate_module(src)
+        body = "/- GENERATED by harness/gen.py (translate_gettz.py) from /repo's working tree — do not edit. -/\n"
+        body += "import DateutilVerif.Model.GzPy\n\nset_option linter.unusedVariables false\n\nnamespace Gen\n\n" + text + "\nend Gen\n"
+        changed = write_if_changed(path, body)
+        report["kernels"]["GettzNocache"] = {"ok": True, "fingerprints": fps, "changed": changed}
+    except (T.Untranslatable, SyntaxError, OSError) as ex:
+        report["kernels"]["GettzNocache"] = {"ok": False, "error": "%s: %s" % (type(ex).__name__, ex)}
 
 def gen_factory(repo, out, report):
     """zone-factory method bodies -> statement IR (harness/translate_factory.py; C18)"""
@@ -265,6 +292,8 @@ def main():
     gen_bytes_kernels(a.repo, a.out, report)
     gen_dt_kernels(a.repo, a.out, report)
     gen_rd_kernels(a.repo, a.out, report)
+    gen_wd_kernels(a.repo, a.out, report)
+    gen_gettz(a.repo, a.out, report)
     gen_factory(a.repo, a.out, report)
     gen_parser_ops(a.repo, a.out, report)
     gen_replace(a.repo, a.out, report)
